@@ -5,6 +5,8 @@ under test (no repository change).  Virtual time: timed waits carry deadlines; t
 controller fires a timeout, which it does only when it chooses to (and, by default, only when nothing else can move).
 """
 import pickle
+import re
+import sys
 import threading
 
 _real_thread = threading.Thread
@@ -47,6 +49,8 @@ class Participant(object):
         try:
             if self.kill_requested:
                 raise Killed()
+            if self.sched.anchors is not None:
+                sys.settrace(self.sched._trace_call)
             self.result = self.fn()
         except Killed:
             self.state = 'killed'
@@ -75,6 +79,38 @@ class Scheduler(object):
         self.urgency = urgency
         self.trace = []  # (participant, label) per controller decision
         self.tls = threading.local()
+        self.locks = []
+        self.anchors = None   # line-anchored preemption inside lock-free code: see set_anchors
+        self.preemptions = []
+
+    # -- line anchors ---------------------------------------------------------------------------------------------
+    def set_anchors(self, filename, pattern, rng, budget=2, prob=0.15):
+        """Extra, *randomised* preemption points: before a source line of `filename` that matches `pattern` (accesses to
+        shared state) the running participant yields with probability `prob`, at most `budget` times per run."""
+        lines = set()
+        rx = re.compile(pattern)
+        with open(filename) as f:
+            for n, text in enumerate(f, 1):
+                if rx.search(text) and not text.lstrip().startswith(('#', 'def ', ':', '"""')):
+                    lines.add(n)
+        self.anchors = {'file': filename, 'lines': lines, 'rng': rng, 'budget': budget, 'prob': prob}
+
+    def _trace_call(self, frame, event, arg):
+        a = self.anchors
+        if a is None or frame.f_code.co_filename != a['file']:
+            return None
+        return self._trace_line
+
+    def _trace_line(self, frame, event, arg):
+        a = self.anchors
+        if event == 'line' and a is not None and a['budget'] > 0 and frame.f_lineno in a['lines']:
+            p = self.current
+            if p is not None and threading.current_thread() is p.thread and not p.kill_requested:
+                if a['rng'].random() < a['prob']:
+                    a['budget'] -= 1
+                    self.preemptions.append((p.name, frame.f_lineno))
+                    self.yield_point('anchor:%d' % frame.f_lineno)
+        return self._trace_line
 
     # -- participants ----------------------------------------------------------------------------------------
     def spawn(self, name, fn):
@@ -221,6 +257,7 @@ def make_threading(sched):
             Lock._n[0] += 1
             self.id = 'lock%d' % Lock._n[0]
             self.owner = None
+            sched.locks.append(self)
 
         def acquire(self, blocking=True, timeout=-1):
             sched.yield_point('lock.acquire')
